@@ -9,7 +9,7 @@ SPEC = {
         'model_module': 'Model.C06_Handshake', 'imports': ['From Wesh Require Import Gen.Handshake.'],
         'shard': 200, 'timeout': 1200,
     }, {
-        'name': 'contact-request-manager', 'pkg': '.', 'test': 'TestVerifC06CRM',
+        'name': 'crm', 'pkg': '.', 'test': 'TestVerifC06CRM',
         'files': [('.', 'harness/root/zz_verif_meta_common_test.go'),
                   ('.', 'harness/root/zz_verif_c06crm_test.go')],
         'model_module': 'Model.C06_Handshake', 'imports': ['From Wesh Require Import Gen.Handshake.'],
@@ -20,7 +20,7 @@ SPEC = {
             'side (with A\'s proof over the zero secret replayed when obtainable), cross-session replay and reflection of every recorded '
             'frame with and without the attacker being a legitimate party of the recorded session, bit flips / truncation / oversize, '
             'RSA and secp256k1 identity keys, foreign signatures, negative or missing acknowledge; non-trivial = every attack; '
-            'distinct = case term per round; contact-request-manager stream: the real handleIncomingRequest (responder handshake, then the peer\'s contact card) '
+            'distinct = case term per round; crm stream: the real handleIncomingRequest (responder handshake, then the peer\'s contact card) '
             'of a hand-assembled contactRequestsManager over the real account-group MetadataStore, driven through an in-memory pipe by a scripted peer '
             'with real keys, 6 (80) rounds x 10 scenarios: honest request with / without rendezvous seed, card naming another account / the '
             'receiving account, short seed, key that is no key, no card, garbage, handshake towards another account, card without handshake; '
